@@ -93,6 +93,33 @@ def run(repo: Repo, rep: Report) -> None:
                         return True
         return False
 
+    def evaluates_expr(cfull: str, e: ast.expr, depth: int = 0) -> bool:
+        """e is the value of the aggregate's expression on the row: `_eval(self.expr, row)` itself, or a call self.<m>(row) of a method
+        (own or inherited) each of whose returns is such a value (possibly after raising for an error value)"""
+        if norm(e) == "_eval(self.expr, row)":
+            return True
+        if depth > 3 or not (isinstance(e, ast.Call) and isinstance(e.func, ast.Attribute) and norm(e.func.value) == "self" and [norm(a) for a in e.args] == ["row"]):
+            return False
+        for b in typed.mro(cfull):
+            if not b.startswith("rdflib.plugins.sparql.aggregates."):
+                continue
+            m = ag.methods(b.rsplit(".", 1)[1]).get(e.func.attr)
+            if m is None:
+                continue
+            rets = [x for x in own_nodes(m) if isinstance(x, ast.Return)]
+            if not rets:
+                return False
+            for x in rets:
+                v = x.value
+                if isinstance(v, ast.Name):
+                    defs = [a.value for a in own_nodes(m) if isinstance(a, ast.Assign) and norm(a.targets[0]) == v.id]
+                    if not defs or not all(evaluates_expr(b, d, depth + 1) for d in defs):
+                        return False
+                elif v is None or not evaluates_expr(b, v, depth + 1):
+                    return False
+            return True
+        return False
+
     for cfull in sorted(accs):
         cname = cfull.rsplit(".", 1)[1]
         if cname == "Accumulator":
@@ -116,7 +143,9 @@ def run(repo: Repo, rep: Report) -> None:
                         tg = st.targets
                     elif isinstance(st, ast.AugAssign):
                         tg = [st.target]
-                    if any(isinstance(t, ast.Attribute) and isinstance(t.value, ast.Name) and t.value.id == "self" and t.attr not in ("datatype", "seen") for t in tg):
+                    # (a boolean constant stored in an attribute is a flag - "this aggregate is an error" - not accumulated state)
+                    is_flag = isinstance(getattr(st, "value", None), ast.Constant) and isinstance(st.value.value, bool)
+                    if not is_flag and any(isinstance(t, ast.Attribute) and isinstance(t.value, ast.Name) and t.value.id == "self" and t.attr not in ("datatype", "seen") for t in tg):
                         state_nodes.append(nd.id)
                     if isinstance(st, ast.Expr) and isinstance(st.value, ast.Call) and isinstance(st.value.func, ast.Attribute) and st.value.func.attr in ("append", "extend") \
                             and norm(st.value.func.value).startswith("self.") and "seen" not in norm(st.value.func.value):
@@ -138,8 +167,7 @@ def run(repo: Repo, rep: Report) -> None:
                     src_ok = False
                     for n in own_nodes(upd):
                         if isinstance(n, ast.Assign) and norm(n.targets[0]) == recorded:
-                            v = norm(n.value)
-                            if v in ("_eval(self.expr, row)", "self.eval_row(row)"):
+                            if evaluates_expr(cfull, n.value):
                                 src_ok = True
                     rep.ob("C08.b-distinct-bookkeeping", ag, cname + ".update", "recorded value %s is the evaluated expression" % recorded, src_ok,
                            "" if src_ok else "the value put into `seen` (%s) is not the result of evaluating the aggregate's expression on the row, which is what use_row() tests" % recorded, node=upd)
@@ -323,7 +351,9 @@ def run(repo: Repo, rep: Report) -> None:  # noqa: F811
     for cname in ("Sum", "Average"):
         f = ag.func(cname + ".update")
         handlers = {norm(h.type) for t in own_nodes(f) if isinstance(t, ast.Try) for h in t.handlers if h.type is not None}
-        ok = any("SPARQLTypeError" in h for h in handlers)
+        # the class itself or one of its bases (except SPARQLError: catches it too)
+        catching = {b.rsplit(".", 1)[1] for b in repo.typed.mro("rdflib.plugins.sparql.sparql.SPARQLTypeError") if b.startswith("rdflib.")}
+        ok = any(c in catching for h in handlers for c in h.replace("(", " ").replace(")", " ").replace(",", " ").split())
         rep.ob("C08.j-numeric-accumulators-agree-on-non-numbers", ag, cname + ".update", "handles SPARQLTypeError of numeric()", ok,
                "" if ok else "%s.update lets SPARQLTypeError escape: `SELECT (SUM(?v) AS ?s)` over a group with one string or IRI raises instead of answering (AVG on the same group answers)" % cname, node=f)
         num = [c for c in own_nodes(f) if isinstance(c, ast.Call) and norm(c.func) == "numeric"]
